@@ -113,6 +113,7 @@ class Kernel:
                         if c is not None:
                             env[p] = const(c)
             interp = AbsInterp(env, self.consts, self.call_hook, self.attr_hook)
+            interp.fid = fid
             res = run_function(fn, interp)
         finally:
             self.active.discard(fid)
@@ -134,6 +135,10 @@ class Kernel:
             tbl = self.attr_hook(norm(node.func.value) + '[k]', node)
             if isinstance(tbl, AV) and len(args) == 2 and isinstance(args[1], AV):
                 return hull(tbl, args[1])
+        if not cands and '.' not in name and getattr(interp, 'fid', None) is not None:
+            # a function taken out of a module-level table into a local
+            dyn = self.cg._dynamic_local(self.cg.mod_of[interp.fid], self.cg.funcs[interp.fid], name)
+            cands = [c for c in (dyn or []) if not callgraph.versionA_exclude(c)]
         if not cands:
             self.unknown_calls.add(name)
             return None
